@@ -5,5 +5,6 @@ if [ "$1" = "-R" ]; then REV="-R"; shift; fi
 P="$1"; shift
 cd /repo && git apply $REV "$P" || { echo "patch does not apply"; exit 3; }
 cd /verif
+export VERIF_EVIDENCE_DIR=/verif/.build/scratch-evidence
 for p in "$@"; do ./check "$p" 2>&1 | grep -E "^VIOLATION|^KNOWN|^C[0-9]+:|NOT-ANALYSABLE" ; done
 cd /repo && git checkout -- . && git status --short | head -3
